@@ -43,6 +43,29 @@ def single_variants(maxn=4):
     return v
 
 
+# operators the harness can apply without a box in between (harness/src/pipe.rs MONO_OPS)
+MONO_OPS = ["map", "mapto", "filter", "filtermap", "tap", "onerrmap", "take", "takewhile", "takewhilei", "skip",
+            "skipwhile", "takelast", "skiplast", "last", "dflt", "scan", "distinct", "duc", "pairwise", "bufcount",
+            "contains", "startwith", "first", "elementat", "ignore"]
+
+
+def mono_variants():
+    """two representative parameterisations per MONO operator (for the all-pairs enumeration)"""
+    pick = {"map": [["map", "add1"], ["map", "mul2"]], "filter": [["filter", "even"], ["filter", "lt2"]],
+            "filtermap": [["filtermap", "evenhalf"]], "onerrmap": [["onerrmap", "add1"]],
+            "take": [["take", "1"], ["take", "2"]], "skip": [["skip", "1"], ["skip", "2"]],
+            "takelast": [["takelast", "1"], ["takelast", "2"]], "skiplast": [["skiplast", "1"]],
+            "takewhile": [["takewhile", "lt2"]], "takewhilei": [["takewhilei", "lt2"]],
+            "skipwhile": [["skipwhile", "lt2"]], "scan": [["scan", "add", "0"]],
+            "bufcount": [["bufcount", "2"]], "contains": [["contains", "2"]],
+            "startwith": [["startwith", ["5"]], ["startwith", ["6", "7"]]],
+            "elementat": [["elementat", "1"]], "mapto": [["mapto", "7"]], "dflt": [["dflt", "9"]]}
+    out = []
+    for h in MONO_OPS:
+        out += pick.get(h, [[h]])
+    return out
+
+
 TWO = ["merge", "zip", "combine", "withlatest", "takeuntil", "skipuntil", "sample", "buffer"]
 
 
